@@ -141,9 +141,7 @@ func (p *Prog) locateBCE(s *BCESite) {
 				case *ast.SliceExpr:
 					s.Pos = x.Lbrack
 				}
-				var buf bytes.Buffer
-				_ = printer.Fprint(&buf, p.Fset, best)
-				s.Expr = buf.String()
+				s.Expr = normalisedExpr(p.Fset, pk.TypesInfo, best)
 			}
 			return
 		}
@@ -529,4 +527,63 @@ func (p *Prog) InstrAt(pos token.Pos) ssa.Instruction {
 		})
 	}
 	return found
+}
+
+// normalisedExpr prints an expression with every local variable / parameter
+// name replaced by "_" so that a rename does not change the residual's key.
+func normalisedExpr(fset *token.FileSet, info *types.Info, n ast.Node) string {
+	var render func(e ast.Expr) string
+	render = func(e ast.Expr) string {
+		switch x := e.(type) {
+		case *ast.Ident:
+			if info != nil {
+				if obj, ok := info.Uses[x].(*types.Var); ok && !obj.IsField() && obj.Parent() != nil && obj.Pkg() != nil && obj.Parent() != obj.Pkg().Scope() {
+					return "_"
+				}
+			}
+			return x.Name
+		case *ast.IndexExpr:
+			return render(x.X) + "[" + render(x.Index) + "]"
+		case *ast.SliceExpr:
+			s := render(x.X) + "["
+			if x.Low != nil {
+				s += render(x.Low)
+			}
+			s += ":"
+			if x.High != nil {
+				s += render(x.High)
+			}
+			if x.Max != nil {
+				s += ":" + render(x.Max)
+			}
+			return s + "]"
+		case *ast.BinaryExpr:
+			return render(x.X) + x.Op.String() + render(x.Y)
+		case *ast.SelectorExpr:
+			return render(x.X) + "." + x.Sel.Name
+		case *ast.CallExpr:
+			args := make([]string, len(x.Args))
+			for i, a := range x.Args {
+				args[i] = render(a)
+			}
+			return render(x.Fun) + "(" + strings.Join(args, ",") + ")"
+		case *ast.ParenExpr:
+			return "(" + render(x.X) + ")"
+		case *ast.BasicLit:
+			return x.Value
+		case *ast.UnaryExpr:
+			return x.Op.String() + render(x.X)
+		case *ast.StarExpr:
+			return "*" + render(x.X)
+		}
+		var buf bytes.Buffer
+		_ = printer.Fprint(&buf, fset, e)
+		return buf.String()
+	}
+	if e, ok := n.(ast.Expr); ok {
+		return render(e)
+	}
+	var buf bytes.Buffer
+	_ = printer.Fprint(&buf, fset, n)
+	return buf.String()
 }
